@@ -477,6 +477,13 @@ func runScenario(ctx context.Context, env *vlib.Env, rep *vlib.Reporter, idx int
 			if fp == nil {
 				continue
 			}
+			// the property's bound is on the reorg itself: the new branch replaces at most the
+			// assumed depth of the canonical chain. After a failed resync the recorded position can
+			// lag ten blocks behind the head; a fork chosen relative to it would then be deeper
+			if head.b.Number()-fp.Number() > 10 {
+				rep.Obs("fork_actions_skipped_deeper_than_assumed_depth", 1)
+				continue
+			}
 			branch := w.info[fp]
 			// build the new branch up to at least pos+1
 			need := int(pos) + 1 - int(fp.Number())
